@@ -43,6 +43,9 @@ func runC03(r *Run, p *Prog) {
 	siblingRules(r, p, "C02", []string{"F1"}, "P12")
 	// P13: what the client hands back is what this reply carried only if every reply is decoded into a fresh value
 	siblingRules(r, p, "C11", []string{"N4"}, "P13")
+	// P15: what the handler reads is what this call carried only if every request is decoded into a fresh value that
+	// is not shared: members absent from a frame keep what an earlier call on the connection left in a reused header
+	siblingRules(r, p, "C01", []string{"R5"}, "P15")
 	// P14: the write path sends the reply it was handed: no function that takes a reply object as a parameter and
 	// reaches the connection write assigns a member of it (dropping an "empty" parameters value, rewriting the name)
 	r.Guard("P14", func() {
